@@ -81,13 +81,25 @@ func validateFields(doc *ast.Document, s *schema.Schema, features schema.Feature
 		return true
 	})
 
+	// Comparing overlapping fields descends through one field per level of recursion. Without a
+	// fragment cycle no field is nested within itself, so the depth cannot exceed the number of
+	// fields in the document. With a cycle (which is reported by the fragment validation rules) the
+	// recursion would otherwise never end.
+	maxDepth := 1
+	ast.Inspect(doc, func(node ast.Node) bool {
+		if _, ok := node.(*ast.Field); ok {
+			maxDepth++
+		}
+		return true
+	})
+
 	ast.Inspect(doc, func(node ast.Node) bool {
 		if node, ok := node.(*ast.SelectionSet); ok {
 			set := map[string][]fieldAndParent{}
 			if err := addFieldSelections(set, node, fragmentDefinitions); err != nil {
 				ret = append(ret, err)
 				return false
-			} else if err := validateFieldsInSetCanMerge(set, fragmentDefinitions, typeInfo); err != nil {
+			} else if err := validateFieldsInSetCanMerge(set, fragmentDefinitions, typeInfo, maxDepth); err != nil {
 				ret = append(ret, err)
 				return false
 			}
@@ -103,13 +115,13 @@ type fieldAndParent struct {
 	parent *ast.SelectionSet
 }
 
-func validateFieldsInSetCanMerge(fieldsForName map[string][]fieldAndParent, fragmentDefinitions map[string]*ast.FragmentDefinition, typeInfo *TypeInfo) *Error {
+func validateFieldsInSetCanMerge(fieldsForName map[string][]fieldAndParent, fragmentDefinitions map[string]*ast.FragmentDefinition, typeInfo *TypeInfo, depth int) *Error {
 	for _, fields := range fieldsForName {
 		for i := 0; i < len(fields); i++ {
 			for j := i + 1; j < len(fields); j++ {
 				fieldA := fields[i].field
 				fieldB := fields[j].field
-				if err := validateSameResponseShape(fieldA, fieldB, fragmentDefinitions, typeInfo); err != nil {
+				if err := validateSameResponseShape(fieldA, fieldB, fragmentDefinitions, typeInfo, depth); err != nil {
 					return err
 				}
 
@@ -147,7 +159,7 @@ func validateFieldsInSetCanMerge(fieldsForName map[string][]fieldAndParent, frag
 						return err
 					} else if err := addFieldSelections(mergedSet, fieldB.SelectionSet, fragmentDefinitions); err != nil {
 						return err
-					} else if err := validateFieldsInSetCanMerge(mergedSet, fragmentDefinitions, typeInfo); err != nil {
+					} else if err := validateFieldsInSetCanMerge(mergedSet, fragmentDefinitions, typeInfo, depth-1); err != nil {
 						return err
 					}
 				}
@@ -209,7 +221,11 @@ func valuesAreIdentical(a, b ast.Value) bool {
 	panic(fmt.Sprintf("unexpected value type: %T", a))
 }
 
-func validateSameResponseShape(fieldA, fieldB *ast.Field, fragmentDefinitions map[string]*ast.FragmentDefinition, typeInfo *TypeInfo) *Error {
+func validateSameResponseShape(fieldA, fieldB *ast.Field, fragmentDefinitions map[string]*ast.FragmentDefinition, typeInfo *TypeInfo, depth int) *Error {
+	if depth <= 0 {
+		return newSecondaryError(fieldA, "fragment cycle detected")
+	}
+
 	var typeA, typeB schema.Type
 
 	if fieldA.Name.Name == "__typename" {
@@ -279,7 +295,7 @@ func validateSameResponseShape(fieldA, fieldB *ast.Field, fragmentDefinitions ma
 	for _, fields := range fieldsForName {
 		for i := 0; i < len(fields); i++ {
 			for j := i + 1; j < len(fields); j++ {
-				if err := validateSameResponseShape(fields[i].field, fields[j].field, fragmentDefinitions, typeInfo); err != nil {
+				if err := validateSameResponseShape(fields[i].field, fields[j].field, fragmentDefinitions, typeInfo, depth-1); err != nil {
 					return err
 				}
 			}
